@@ -194,7 +194,10 @@ class SensitiveWordAnonymizer(object):
     @classmethod
     def _generate_sensitive_word_regex(cls, sensitive_words):
         """Compile and return regex for the specified list of sensitive words."""
-        return re.compile("({})".format("|".join(sensitive_words)), re.IGNORECASE)
+        # Fixed order (longest first) so the result does not depend on set iteration
+        # order when one word is a prefix of another
+        ordered_words = sorted(sensitive_words, key=lambda w: (-len(w), w))
+        return re.compile("({})".format("|".join(ordered_words)), re.IGNORECASE)
 
     def _get_or_generate_sensitive_word_replacement(self, sensitive_word):
         """Return the replacement string for the given sensitive word.
